@@ -1001,6 +1001,12 @@ func linOfWith(ps *ssax.PathState, v ssa.Value, depth int, atom func(ssa.Value) 
 				return linOfWith(ps, x.X, depth+1, atom).add(linOfWith(ps, x.Y, depth+1, atom), -1)
 			}
 		case *ssa.Call:
+			// len(x[lo:hi]) = hi - lo
+			if b, ok := x.Call.Value.(*ssa.Builtin); ok && b.Name() == "len" && len(x.Call.Args) == 1 {
+				if sl, ok := ps.Resolve(x.Call.Args[0]).(*ssa.Slice); ok && sl.Low != nil && sl.High != nil {
+					return linOfWith(ps, sl.High, depth+1, atom).add(linOfWith(ps, sl.Low, depth+1, atom), -1)
+				}
+			}
 			if x.Call.IsInvoke() && x.Call.Method.Name() == "Len" && len(x.Call.Args) == 0 {
 				return linForm{atoms: map[string]int64{fmt.Sprintf("Len(%p)", ps.Resolve(x.Call.Value)): 1}}
 			}
